@@ -185,3 +185,130 @@ package keeper
 //@ ensures [C17] hook-fired-before-the-bid-is-written: err == nil && k.hooks != nil ==> hookN("BeforeBidPlaced") == old(hookN("BeforeBidPlaced")) + 1 && hookArgsAre("BeforeBidPlaced", result0.AuctionId, result0.Id, result0.Bidder, result0.Type, result0.Price, result0.Coin) && hookT("BeforeBidPlaced") < setT("Bid")
 //@ ensures [C17] veto-aborts-before-the-write: !HookOK ==> err != nil && Bid == old(Bid)
 //@ ensures [C01,C06,C10,C19] preserves-the-invariant: err == nil ==> Inv()
+
+// ModifyBid (C11): only the owner, only while the batch auction is open, price and amount not lower and one of them
+// higher, same denomination, price floor respected; the extra charge is the increase of the required reservation.
+//@ func (Keeper).ModifyBid
+//@ requires Inv() && wfModifyBid(msg) && !isEscrow(addrOf(msg.Bidder))
+//@ modifies Bid, Bal, HookN, HookT, SetT, XferN, XferT
+//@ ensures [C11,C08,C18] only-while-open-batch: result == nil ==> Auction[msg.AuctionId].present && Auction[msg.AuctionId].Status == AuctionStatusStarted && Auction[msg.AuctionId].Kind == KindBatch
+//@ ensures [C11,C18] only-an-existing-bid-of-the-signer: result == nil ==> old(Bid[msg.AuctionId][msg.BidId]).present && old(Bid[msg.AuctionId][msg.BidId]).Bidder == msg.Bidder
+//@ ensures [C11,C18] price-floor-and-denomination: result == nil ==> msg.Price >= Auction[msg.AuctionId].MinBidPrice && msg.Coin.Denom == old(Bid[msg.AuctionId][msg.BidId]).Coin.Denom
+//@ ensures [C11,C18] only-grows: result == nil ==> msg.Price >= old(Bid[msg.AuctionId][msg.BidId]).Price && msg.Coin.Amount >= old(Bid[msg.AuctionId][msg.BidId]).Coin.Amount && (msg.Price > old(Bid[msg.AuctionId][msg.BidId]).Price || msg.Coin.Amount > old(Bid[msg.AuctionId][msg.BidId]).Coin.Amount)
+//@ ensures [C11,C19] only-price-and-coin-change: result == nil ==> Bid[msg.AuctionId][msg.BidId].present && Bid[msg.AuctionId][msg.BidId].Price == msg.Price && Bid[msg.AuctionId][msg.BidId].Coin == msg.Coin && sameExcept(Bid[msg.AuctionId][msg.BidId], old(Bid[msg.AuctionId][msg.BidId]), Price, Coin)
+//@ ensures [C11,C19] other-bids-untouched: forall(a, uint64, forall(i, uint64, a != msg.AuctionId || i != msg.BidId ==> Bid[a][i] == old(Bid[a][i])))
+//@ ensures [C11] failed-modification-changes-no-bid: result != nil ==> Bid == old(Bid)
+//@ ensures [C11,C01,C02,C04] charged-the-increase-of-the-reservation: result == nil ==> let(pd, Auction[msg.AuctionId].PayingCoinDenom, bal(payEsc(msg.AuctionId), pd) == old(bal(payEsc(msg.AuctionId), pd)) + payOf(Bid[msg.AuctionId][msg.BidId], pd) - payOf(old(Bid[msg.AuctionId][msg.BidId]), pd) && payOf(Bid[msg.AuctionId][msg.BidId], pd) >= payOf(old(Bid[msg.AuctionId][msg.BidId]), pd))
+//@ ensures [C11,C02] bidder-pays-exactly-the-increase: result == nil ==> let(pd, Auction[msg.AuctionId].PayingCoinDenom, forall(d, string, bal(addrOf(msg.Bidder), d) == old(bal(addrOf(msg.Bidder), d)) - ite(d == pd, payOf(Bid[msg.AuctionId][msg.BidId], pd) - payOf(old(Bid[msg.AuctionId][msg.BidId]), pd), 0)))
+//@ ensures [C02,C19] nobody-else-pays: result == nil ==> forall(ad, Addr, forall(d, string, ad != addrOf(msg.Bidder) && (ad != payEsc(msg.AuctionId) || d != Auction[msg.AuctionId].PayingCoinDenom) ==> bal(ad, d) == old(bal(ad, d))))
+//@ ensures [C17] hook-fired-before-the-bid-is-written: result == nil && k.hooks != nil ==> hookN("BeforeBidModified") == old(hookN("BeforeBidModified")) + 1 && hookArgsAre("BeforeBidModified", msg.AuctionId, msg.BidId, msg.Bidder, Bid[msg.AuctionId][msg.BidId].Type, msg.Price, msg.Coin) && hookT("BeforeBidModified") < setT("Bid")
+//@ ensures [C17] veto-aborts-before-the-write: !HookOK ==> result != nil
+//@ ensures [C01,C10,C19] preserves-the-invariant: result == nil ==> Inv()
+//@ ensures [C18,C11] accepted-when-conditions-hold: let(a, Auction[msg.AuctionId], let(b, old(Bid[msg.AuctionId][msg.BidId]), a.present && a.Status == AuctionStatusStarted && a.Kind == KindBatch && b.present && b.Bidder == msg.Bidder && msg.Price >= a.MinBidPrice && msg.Coin.Denom == b.Coin.Denom && msg.Price >= b.Price && msg.Coin.Amount >= b.Coin.Amount && (msg.Price > b.Price || msg.Coin.Amount > b.Coin.Amount) && old(bal(addrOf(msg.Bidder), a.PayingCoinDenom)) >= payOfPC(msg.Price, msg.Coin, a.PayingCoinDenom) - payOf(b, a.PayingCoinDenom) && ExternOK && HookOK ==> result == nil))
+
+// CreateFixedPriceAuction / CreateBatchAuction (C18, C19, C08, C01, C02, C17).
+//@ func (Keeper).CreateFixedPriceAuction
+//@ requires Inv() && wfCreateFixed(msg) && timesSane(msg.VestingSchedules) && !isEscrow(addrOf(msg.Auctioneer)) && AuctionSeq < 18446744073709551615
+//@ modifies Auction, AuctionSeq, Bal, Pool, HookN, HookT, SetT, XferN, XferT
+//@ ensures [C18] end-not-passed-and-schedule-limit: err == nil ==> BlockTime <= msg.EndTime && len(msg.VestingSchedules) <= 100
+//@ ensures [C19] id-is-next: err == nil ==> result0.Id == old(AuctionSeq) && AuctionSeq == old(AuctionSeq) + 1 && !old(Auction[result0.Id]).present
+//@ ensures [C19,C16,C18] recorded-terms-are-the-message: err == nil ==> let(a, Auction[old(AuctionSeq)], a.present && a.Kind == KindFixed && a.Type == AuctionTypeFixedPrice && a.Id == old(AuctionSeq) && a.Auctioneer == msg.Auctioneer && a.StartPrice == msg.StartPrice && a.SellingCoin == msg.SellingCoin && a.PayingCoinDenom == msg.PayingCoinDenom && a.VestingSchedules == msg.VestingSchedules && a.StartTime == msg.StartTime && len(a.EndTimes) == 1 && a.EndTimes[0] == msg.EndTime && a.RemainingSellingCoin == msg.SellingCoin && a.SellingReserveAddress == strOf(sellEsc(a.Id)) && a.PayingReserveAddress == strOf(payEsc(a.Id)) && a.VestingReserveAddress == strOf(vestEsc(a.Id)))
+//@ ensures [C08,C12] opens-at-creation-iff-start-passed: err == nil ==> Auction[old(AuctionSeq)].Status == ite(msg.StartTime <= BlockTime, AuctionStatusStarted, AuctionStatusStandBy)
+//@ ensures [C01,C02] offered-amount-moves-into-the-selling-escrow: err == nil ==> bal(sellEsc(old(AuctionSeq)), msg.SellingCoin.Denom) == old(bal(sellEsc(old(AuctionSeq)), msg.SellingCoin.Denom)) + msg.SellingCoin.Amount
+//@ ensures [C02] auctioneer-pays-fee-plus-offer: err == nil ==> forall(d, string, bal(addrOf(msg.Auctioneer), d) == old(bal(addrOf(msg.Auctioneer), d)) - coins(Params.AuctionCreationFee, d) - ite(d == msg.SellingCoin.Denom, msg.SellingCoin.Amount, 0))
+//@ ensures [C02] fee-goes-to-the-community-pool: err == nil ==> forall(d, string, pool(d) == old(pool(d)) + coins(Params.AuctionCreationFee, d))
+//@ ensures [C02,C19] nobody-else-pays: err == nil ==> forall(ad, Addr, forall(d, string, ad != addrOf(msg.Auctioneer) && (ad != sellEsc(old(AuctionSeq)) || d != msg.SellingCoin.Denom) ==> bal(ad, d) == old(bal(ad, d))))
+//@ ensures [C19] other-auctions-untouched: forall(x, uint64, x != old(AuctionSeq) ==> Auction[x] == old(Auction[x]))
+//@ ensures [C17] hooks-fire-around-the-write: err == nil && k.hooks != nil ==> hookN("BeforeFixedPriceAuctionCreated") == old(hookN("BeforeFixedPriceAuctionCreated")) + 1 && hookN("AfterFixedPriceAuctionCreated") == old(hookN("AfterFixedPriceAuctionCreated")) + 1 && hookT("BeforeFixedPriceAuctionCreated") < setT("Auction") && setT("Auction") < hookT("AfterFixedPriceAuctionCreated")
+//@ ensures [C17] hooks-get-the-recorded-values: err == nil && k.hooks != nil ==> hookArgsAre("BeforeFixedPriceAuctionCreated", msg.Auctioneer, msg.StartPrice, msg.SellingCoin, msg.PayingCoinDenom, msg.VestingSchedules, msg.StartTime, msg.EndTime) && hookArgsAre("AfterFixedPriceAuctionCreated", old(AuctionSeq), msg.Auctioneer, msg.StartPrice, msg.SellingCoin, msg.PayingCoinDenom, msg.VestingSchedules, msg.StartTime, msg.EndTime)
+//@ ensures [C17] veto-fails-the-creation: !HookOK ==> err != nil
+//@ ensures [C01,C19] preserves-the-invariant: err == nil ==> Inv()
+//@ ensures [C18] accepted-when-conditions-hold: old(BlockTime <= msg.EndTime && len(msg.VestingSchedules) <= 100 && forall(d, string, bal(addrOf(msg.Auctioneer), d) >= coins(Params.AuctionCreationFee, d) + ite(d == msg.SellingCoin.Denom, msg.SellingCoin.Amount, 0))) && ExternOK && HookOK ==> err == nil
+
+//@ func (Keeper).CreateBatchAuction
+//@ requires Inv() && wfCreateBatch(msg) && timesSane(msg.VestingSchedules) && !isEscrow(addrOf(msg.Auctioneer)) && AuctionSeq < 18446744073709551615
+//@ modifies Auction, AuctionSeq, Bal, Pool, HookN, HookT, SetT, XferN, XferT
+//@ ensures [C18,C13] end-not-passed-and-limits: err == nil ==> BlockTime <= msg.EndTime && len(msg.VestingSchedules) <= 100 && msg.MaxExtendedRound <= 30
+//@ ensures [C19] id-is-next: err == nil ==> result0.Id == old(AuctionSeq) && AuctionSeq == old(AuctionSeq) + 1 && !old(Auction[result0.Id]).present
+//@ ensures [C19,C16,C18,C13] recorded-terms-are-the-message: err == nil ==> let(a, Auction[old(AuctionSeq)], a.present && a.Kind == KindBatch && a.Type == AuctionTypeBatch && a.Id == old(AuctionSeq) && a.Auctioneer == msg.Auctioneer && a.StartPrice == msg.StartPrice && a.MinBidPrice == msg.MinBidPrice && a.MatchedPrice == 0 && a.MaxExtendedRound == msg.MaxExtendedRound && a.ExtendedRoundRate == msg.ExtendedRoundRate && a.SellingCoin == msg.SellingCoin && a.PayingCoinDenom == msg.PayingCoinDenom && a.VestingSchedules == msg.VestingSchedules && a.StartTime == msg.StartTime && len(a.EndTimes) == 1 && a.EndTimes[0] == msg.EndTime && a.SellingReserveAddress == strOf(sellEsc(a.Id)) && a.PayingReserveAddress == strOf(payEsc(a.Id)) && a.VestingReserveAddress == strOf(vestEsc(a.Id)))
+//@ ensures [C08,C12] opens-at-creation-iff-start-passed: err == nil ==> Auction[old(AuctionSeq)].Status == ite(msg.StartTime <= BlockTime, AuctionStatusStarted, AuctionStatusStandBy)
+//@ ensures [C01,C02] offered-amount-moves-into-the-selling-escrow: err == nil ==> bal(sellEsc(old(AuctionSeq)), msg.SellingCoin.Denom) == old(bal(sellEsc(old(AuctionSeq)), msg.SellingCoin.Denom)) + msg.SellingCoin.Amount
+//@ ensures [C02] auctioneer-pays-fee-plus-offer: err == nil ==> forall(d, string, bal(addrOf(msg.Auctioneer), d) == old(bal(addrOf(msg.Auctioneer), d)) - coins(Params.AuctionCreationFee, d) - ite(d == msg.SellingCoin.Denom, msg.SellingCoin.Amount, 0))
+//@ ensures [C02] fee-goes-to-the-community-pool: err == nil ==> forall(d, string, pool(d) == old(pool(d)) + coins(Params.AuctionCreationFee, d))
+//@ ensures [C02,C19] nobody-else-pays: err == nil ==> forall(ad, Addr, forall(d, string, ad != addrOf(msg.Auctioneer) && (ad != sellEsc(old(AuctionSeq)) || d != msg.SellingCoin.Denom) ==> bal(ad, d) == old(bal(ad, d))))
+//@ ensures [C19] other-auctions-untouched: forall(x, uint64, x != old(AuctionSeq) ==> Auction[x] == old(Auction[x]))
+//@ ensures [C17] hooks-fire-around-the-write: err == nil && k.hooks != nil ==> hookN("BeforeBatchAuctionCreated") == old(hookN("BeforeBatchAuctionCreated")) + 1 && hookN("AfterBatchAuctionCreated") == old(hookN("AfterBatchAuctionCreated")) + 1 && hookT("BeforeBatchAuctionCreated") < setT("Auction") && setT("Auction") < hookT("AfterBatchAuctionCreated")
+//@ ensures [C17] hooks-get-the-recorded-values: err == nil && k.hooks != nil ==> hookArgsAre("BeforeBatchAuctionCreated", msg.Auctioneer, msg.StartPrice, msg.MinBidPrice, msg.SellingCoin, msg.PayingCoinDenom, msg.VestingSchedules, msg.MaxExtendedRound, msg.ExtendedRoundRate, msg.StartTime, msg.EndTime) && hookArgsAre("AfterBatchAuctionCreated", old(AuctionSeq), msg.Auctioneer, msg.StartPrice, msg.MinBidPrice, msg.SellingCoin, msg.PayingCoinDenom, msg.VestingSchedules, msg.MaxExtendedRound, msg.ExtendedRoundRate, msg.StartTime, msg.EndTime)
+//@ ensures [C17] veto-fails-the-creation: !HookOK ==> err != nil
+//@ ensures [C01,C19] preserves-the-invariant: err == nil ==> Inv()
+//@ ensures [C18] accepted-when-conditions-hold: old(BlockTime <= msg.EndTime && len(msg.VestingSchedules) <= 100 && msg.MaxExtendedRound <= 30 && forall(d, string, bal(addrOf(msg.Auctioneer), d) >= coins(Params.AuctionCreationFee, d) + ite(d == msg.SellingCoin.Denom, msg.SellingCoin.Amount, 0))) && ExternOK && HookOK ==> err == nil
+
+// AddAllowedBidders / UpdateAllowedBidder: the programming interface other modules use to maintain an allow-list (C10, C05, C17, C19).
+//@ func (Keeper).AddAllowedBidders
+//@ requires Inv()
+//@ modifies AllowedBidder, HookN, HookT, SetT
+//@ ensures [C10,C18] needs-an-existing-auction-and-a-non-empty-list: result == nil ==> len(allowedBidders) > 0 && Auction[auctionId].present
+//@ ensures [C05,C10] every-entry-valid-and-within-the-offer: result == nil ==> forall(j, int, 0 <= j && j < len(allowedBidders) ==> validAddr(allowedBidders[j].Bidder) && allowedBidders[j].MaxBidAmount > 0 && allowedBidders[j].MaxBidAmount <= Auction[auctionId].SellingCoin.Amount)
+//@ ensures [C10,C19] entries-stored-under-the-auction-and-their-bidder: result == nil ==> forall(j, int, 0 <= j && j < len(allowedBidders) ==> AllowedBidder[auctionId][addrOf(allowedBidders[j].Bidder)].present)
+//@ ensures [C19,C10] other-auctions-allow-lists-untouched: forall(x, uint64, forall(ad, Addr, x != auctionId ==> AllowedBidder[x][ad] == old(AllowedBidder[x][ad])))
+//@ ensures [C10] nobody-is-removed: forall(x, uint64, forall(ad, Addr, old(AllowedBidder[x][ad]).present ==> AllowedBidder[x][ad].present))
+//@ ensures [C17] hook-fired-once-before-any-write: result == nil && k.hooks != nil ==> hookN("BeforeAllowedBiddersAdded") == old(hookN("BeforeAllowedBiddersAdded")) + 1 && hookArgsAre("BeforeAllowedBiddersAdded", allowedBidders)
+//@ ensures [C17] veto-aborts-before-any-write: !HookOK ==> result != nil && AllowedBidder == old(AllowedBidder)
+//@ ensures [C10,C19] preserves-the-invariant: InvAllowed()
+//@ loop 0 invariant 0 <= idx && idx <= len(allowedBidders)
+//@ loop 0 invariant InvAllowed() && HookOK
+//@ loop 0 invariant forall(j, int, 0 <= j && j < idx ==> validAddr(allowedBidders[j].Bidder) && allowedBidders[j].MaxBidAmount > 0 && allowedBidders[j].MaxBidAmount <= Auction[auctionId].SellingCoin.Amount && AllowedBidder[auctionId][addrOf(allowedBidders[j].Bidder)].present)
+//@ loop 0 invariant forall(x, uint64, forall(ad, Addr, (x != auctionId ==> AllowedBidder[x][ad] == old(AllowedBidder[x][ad])) && (old(AllowedBidder[x][ad]).present ==> AllowedBidder[x][ad].present)))
+//@ loop 0 invariant hookN("BeforeAllowedBiddersAdded") == old(hookN("BeforeAllowedBiddersAdded")) + ite(k.hooks != nil, 1, 0) && (k.hooks != nil ==> hookArgsAre("BeforeAllowedBiddersAdded", allowedBidders))
+
+//@ func (Keeper).UpdateAllowedBidder
+//@ requires Inv()
+//@ modifies AllowedBidder, HookN, HookT, SetT
+//@ ensures [C10,C18] only-an-existing-entry-of-an-existing-auction: result == nil ==> Auction[auctionId].present && old(AllowedBidder[auctionId][bidder]).present && maxBidAmount > 0
+//@ ensures [C10,C05] entry-gets-the-new-cap: result == nil ==> AllowedBidder[auctionId][bidder].present && AllowedBidder[auctionId][bidder].MaxBidAmount == maxBidAmount && AllowedBidder[auctionId][bidder].Bidder == strOf(bidder) && AllowedBidder[auctionId][bidder].AuctionId == auctionId
+//@ ensures [C19,C10] other-entries-untouched: forall(x, uint64, forall(ad, Addr, x != auctionId || ad != bidder ==> AllowedBidder[x][ad] == old(AllowedBidder[x][ad])))
+//@ ensures [C17] hook-fired-before-the-write: result == nil && k.hooks != nil ==> hookN("BeforeAllowedBidderUpdated") == old(hookN("BeforeAllowedBidderUpdated")) + 1 && hookArgsAre("BeforeAllowedBidderUpdated", auctionId, bidder, maxBidAmount) && hookT("BeforeAllowedBidderUpdated") < setT("AllowedBidder")
+//@ ensures [C17] veto-aborts-before-the-write: !HookOK ==> result != nil && AllowedBidder == old(AllowedBidder)
+//@ ensures [C10,C19] preserves-the-invariant: InvAllowed()
+
+// Message server: the only message that can touch an allow-list is MsgAddAllowedBidder, and only with the testing
+// switch on (C10); every other handler leaves AllowedBidder out of its modifies clause, which the frame check proves.
+//@ func (msgServer).AddAllowedBidder
+//@ requires Inv()
+//@ modifies AllowedBidder, HookN, HookT, SetT
+//@ ensures [C10] refused-unless-the-testing-switch-is-on: !EnableAddAllowedBidder ==> result1 != nil && AllowedBidder == old(AllowedBidder)
+//@ ensures [C10,C18] accepted-only-for-a-valid-entry: result1 == nil ==> EnableAddAllowedBidder && validAddr(msg.AllowedBidder.Bidder) && Auction[msg.AuctionId].present && msg.AllowedBidder.MaxBidAmount > 0
+//@ ensures [C10,C19] preserves-the-invariant: InvAllowed()
+
+//@ func (msgServer).PlaceBid
+//@ requires Inv() && wfPlaceBid(msg) && !isEscrow(addrOf(msg.Bidder)) && BidSeq[msg.AuctionId] < 18446744073709551615
+//@ modifies Auction, Bid, BidSeq, Bal, Pool, HookN, HookT, SetT, XferN, XferT
+//@ ensures [C10,C18,C08] recorded-only-for-allow-listed-bidders-of-open-auctions: result1 == nil ==> old(AllowedBidder[msg.AuctionId][addrOf(msg.Bidder)]).present && old(Auction[msg.AuctionId]).Status == AuctionStatusStarted
+//@ ensures [C01,C10,C19] preserves-the-invariant: result1 == nil ==> Inv()
+
+//@ func (msgServer).ModifyBid
+//@ requires Inv() && wfModifyBid(msg) && !isEscrow(addrOf(msg.Bidder))
+//@ modifies Bid, Bal, HookN, HookT, SetT, XferN, XferT
+//@ ensures [C11,C08] only-the-owner-while-open: result1 == nil ==> old(Bid[msg.AuctionId][msg.BidId]).present && old(Bid[msg.AuctionId][msg.BidId]).Bidder == msg.Bidder && Auction[msg.AuctionId].Status == AuctionStatusStarted
+//@ ensures [C01,C10,C19] preserves-the-invariant: result1 == nil ==> Inv()
+
+//@ func (msgServer).CancelAuction
+//@ requires Inv() && wfCancel(msg)
+//@ modifies Auction, Bal, HookN, HookT, SetT, XferN, XferT
+//@ ensures [C12,C08] only-the-auctioneer-before-opening: result1 == nil ==> old(Auction[msg.AuctionId]).Status == AuctionStatusStandBy && old(Auction[msg.AuctionId]).Auctioneer == msg.Auctioneer && Auction[msg.AuctionId].Status == AuctionStatusCancelled
+//@ ensures [C19] preserves-the-invariant: InvAuctions()
+
+//@ func (msgServer).CreateFixedPriceAuction
+//@ requires Inv() && wfCreateFixed(msg) && timesSane(msg.VestingSchedules) && !isEscrow(addrOf(msg.Auctioneer)) && AuctionSeq < 18446744073709551615
+//@ modifies Auction, AuctionSeq, Bal, Pool, HookN, HookT, SetT, XferN, XferT
+//@ ensures [C19,C01] preserves-the-invariant: result1 == nil ==> Inv() && AuctionSeq == old(AuctionSeq) + 1
+
+//@ func (msgServer).CreateBatchAuction
+//@ requires Inv() && wfCreateBatch(msg) && timesSane(msg.VestingSchedules) && !isEscrow(addrOf(msg.Auctioneer)) && AuctionSeq < 18446744073709551615
+//@ modifies Auction, AuctionSeq, Bal, Pool, HookN, HookT, SetT, XferN, XferT
+//@ ensures [C19,C01] preserves-the-invariant: result1 == nil ==> Inv() && AuctionSeq == old(AuctionSeq) + 1
+
+//@ func (msgServer).UpdateParams
+//@ modifies Params, SetT
+//@ ensures [C18] only-the-authority-with-valid-params: result1 == nil ==> k.authority == req.Authority && Params.present && Params.AuctionCreationFee == req.Params.AuctionCreationFee && Params.PlaceBidFee == req.Params.PlaceBidFee && Params.ExtendedPeriod == req.Params.ExtendedPeriod
+//@ ensures [C18] rejected-leaves-params: result1 != nil ==> Params == old(Params)
